@@ -308,7 +308,7 @@ func (vc *VC) frameCheck(st *State, ref, lo, hi, kind, what string, pos token.Po
 	}
 	n := vc.counts["frame#"+kind+"#"+what]
 	vc.counts["frame#"+kind+"#"+what]++
-	vc.oblige(st, &Obligation{Name: fmt.Sprintf("frame#%s#%s#%d", kind, what, n), Kind: "frame", Src: vc.srcPos(pos), Tags: vc.frameTags(), Clause: "modifies " + vc.frameText()}, f)
+	vc.oblige(st, &Obligation{Name: fmt.Sprintf("%s#frame#%s#%s#%d", vc.eng.shortName(vc.root), kind, what, n), Kind: "frame", Src: vc.srcPos(pos), Tags: vc.frameTags(), Clause: "modifies " + vc.frameText()}, f)
 }
 
 func (vc *VC) frameTags() []string {
@@ -412,7 +412,10 @@ func (vc *VC) wf(st *State, v Val, t types.Type) string {
 		}
 		return and(cs...)
 	case *types.Array:
-		sv := v.(StructV)
+		sv, ok := v.(StructV)
+		if !ok {
+			return "true"
+		}
 		var cs []string
 		for i := range sv.f {
 			cs = append(cs, vc.wf(st, sv.f[i], u.Elem()))
